@@ -1,60 +1,514 @@
 """C11 — introspection agrees with the constructors and with the schema, for every type.
 
-Tie: translators (nml.py MemberSpec_/constructors -> Gen/Bindings.lean, XSD -> Gen/Xsd.lean, both regenerated every run;
-pinned kernel-checked obligations) + exhaustive correspondence over all 199 classes (real info / parentinfo /
-inspect.signature / _check_arg_list vs the model) + get_by_id on generated documents and networks.
+Tie (second pass):
+  * translators: nml.py MemberSpec_/constructors -> Gen/Bindings.lean, XSD -> Gen/Xsd.lean (shared, bindgen) and
+    translators/introspect_extract.py -> Gen/Introspect.lean: the BODIES of _get_members / info / parentinfo /
+    _check_arg_list / NeuroMLDocument.get_by_id / Network.get_by_id (both files) statement by statement, the
+    excluded_classes filter, changed_names.csv; Props/C11Gen.lean proves generated = model and history independence;
+  * exhaustive correspondence over all 199 classes: info in all six (show_contents x return_format) forms, parentinfo in
+    all three, inspect.signature, _check_arg_list, run as a call HISTORY on the freshly imported module (caches reset)
+    through the translated bodies;
+  * random call histories (info / parentinfo / _check_arg_list / _get_members / get_by_id interleaved, repeated calls)
+    compared call by call, first and n-th answers compared, member_data_items_ tables compared with their import-time
+    snapshot after every history;
+  * get_by_id on generated documents / networks / NetworkContainers: ids in several lists, ids None / int, id-less
+    members, inherited scalar members set (annotation), repeated misses across the warn_count threshold, empty / None /
+    int requested ids.
 """
 import inspect
 import json
+import os
+import re
+import sys
 
 import bindgen
 import fw
 
-LEAN_PROPS = ["NmlVerif.Props.C11"]
+sys.path.insert(0, os.path.join(fw.VERIF, "translators"))
+import introspect_extract  # noqa
+
+LEAN_PROPS = ["NmlVerif.Props.C11", "NmlVerif.Props.C11Gen"]
 LEVEL = "proof"
-RULE = ("exhaustive over the 199 binding classes: info(return_format='dict', show_contents=True), parentinfo(return_format='dict'), "
-        "inspect.signature(__init__), _check_arg_list for every member name and two non-members; get_by_id on generated documents and "
-        "networks (ids duplicated across lists, missing ids, empty id, id-less members). non-trivial = class with >= 1 member / "
-        "document with >= 2 components; distinct = distinct class or distinct (lists, id) query")
+RULE = ("exhaustive over the 199 binding classes: info() in all six (show_contents, return_format) forms, parentinfo() in all three, "
+        "inspect.signature(__init__), _check_arg_list for every member name and two non-members, run as one call history per class on "
+        "a module whose introspection caches were reset; random call histories (3-9 calls, >= 1 repeated call, get_by_id interleaved) "
+        "compared call by call with the translated bodies, first/n-th answers and member_data_items_ snapshot compared; get_by_id on "
+        "generated documents / networks / NetworkContainers (ids duplicated across lists, missing ids, ids None / int, id-less "
+        "members, annotation set, empty / None / int requested id, up to 13 repeated misses on one object). non-trivial = class with "
+        ">= 1 member / history with a repeated call / holder with >= 2 components; distinct = distinct class, history or (holder, id) query")
 TRUST = [
-    "translators nml_extract/emit_bindings (MemberSpec_ entries, constructor signatures) and xsd_extract/emit_xsd",
-    "dir(module) / type(cc) is type class discovery in parentinfo is modelled as 'the binding classes'",
+    "translators nml_extract/emit_bindings (MemberSpec_ entries, constructor signatures), xsd_extract/emit_xsd and introspect_extract "
+    "(statement forms -> vocabulary constructors; the semantics of each constructor in Model/Introspect.lean is hand-written)",
+    "dir(module) / type(cc) is type class discovery in parentinfo: the filter is evaluated by the translator on the binding class names "
+    "(c11_gen_no_hidden_class) and the discovered set is compared with the table on every run",
+    "Python's sorted() raises TypeError exactly when two of the ids cannot be ordered (None among >= 2 ids, str with int): modelled as `unsortable`",
 ]
 ASSUMPTIONS = [
-    "known findings: C11:any-holder (6 xs:any holders list __ANY__), C11:choice-member-required (alternatives of required choices marked Required), C11:member-type:ComponentType.Property",
-    "_get_members goes through list(set(...)): results are compared as sets",
+    "known findings: C11:any-holder (6 xs:any holders list __ANY__), C11:choice-member-required (alternatives of required choices marked "
+    "Required), C11:member-type:ComponentType.Property, C11:get_by_id-raises:unsortable-ids (TypeError instead of None; repair proposed)",
+    "_get_members goes through list(set(...)): results are compared as sets (no class has two members of one name: c11_member_names_nodup)",
+    "get_by_id: 'a component carrying the id exists' is read as: in one of the lists named by the holder class's own member_data_items_ "
+    "(direct children; a population inside a network is not found from the document) — the code's and the docstring's reading",
+    "requested ids that are not strings are outside get_by_id's signature (id: str): compared with the model, not judged by the oracle",
 ]
 
 ANY_HOLDERS = ["Annotation", "CellSet", "Region", "ReactionScheme", "ForwardTransition", "ReverseTransition"]
+CACHE_ATTR = "_GeneratedsSuperSuper__all_members_"
+MISSING = object()
 
 
 def regenerate(ctx):
     ctx.ir = bindgen.IR()
-    return list(ctx.ir.gaps)
+    gaps = list(ctx.ir.gaps)
+    try:
+        ctx.intro, g2 = introspect_extract.regenerate(fw.REPO, fw.LEAN, ctx.ir.table, ctx.ir.N)
+        gaps += g2
+    except Exception as e:
+        ctx.intro = None
+        gaps.append("introspect translator crashed: %r" % (e,))
+    return gaps
 
 
-def mk_component(mod, rng, i):
-    k = rng.randrange(4)
-    ids = ["a", "b", "c", "a1", "pop", "x_1"]
-    cid = rng.choice(ids)
-    if k == 0:
-        return "izhikevich_cells", mod.IzhikevichCell(id=cid, v0="-70mV", thresh="30mV", a="0.02", b="0.2", c="-65", d="6")
-    if k == 1:
-        return "pulse_generators", mod.PulseGenerator(id=cid, delay="0ms", duration="1ms", amplitude="1nA")
-    if k == 2:
-        return "includes", mod.IncludeType(href=cid)            # no id attribute at all
-    return "networks", mod.Network(id=cid)
+# ---------------------------------------------------------------------------------------------- real-library helpers
+def all_classes(mod):
+    out = []
+    for n in dir(mod):
+        k = getattr(mod, n, None)
+        if isinstance(k, type):
+            out.append(k)
+    return out
 
 
+def reset_caches(mod):
+    """forget every `__all_members_` cache: the module looks freshly imported to the introspection helpers"""
+    for k in all_classes(mod):
+        if CACHE_ATTR in k.__dict__:
+            try:
+                delattr(k, CACHE_ATTR)
+            except Exception:
+                pass
+    import neuroml.nml.generatedssupersuper as g
+    if CACHE_ATTR in g.GeneratedsSuperSuper.__dict__:
+        delattr(g.GeneratedsSuperSuper, CACHE_ATTR)
+
+
+def spec_tuple(sp):
+    return (sp.get_name(), sp.get_data_type(), int(bool(sp.get_container())), int(bool(sp.get_optional())))
+
+
+def table_snapshot(mod, classes):
+    out = {}
+    for c in classes:
+        items = getattr(mod, c).__dict__.get("member_data_items_")
+        if items is None:
+            out[c] = None
+        else:
+            items = items if isinstance(items, list) else list(items.values())
+            out[c] = [spec_tuple(sp) for sp in items]
+    return out
+
+
+def schema_required(ir, XT, cls, member):
+    """(required according to the schema, inside a choice group) for an OWN member of `cls`; None if not mapped"""
+    from emit_xsd import xsd_extract
+    c, x = ir.C[cls], XT.get(cls)
+    if x is None:
+        return None
+    m2xml = {a["member"]: a["xml"] for a in c["expAttrs"]}
+    m2tag = {a["member"]: a["tag"] for a in c["expChildren"]}
+    xa = {a["name"]: a for a in x["attrs"]}
+    xe = {e["tag"]: e for e in xsd_extract.effective_elems(x["content"])}
+    if member in m2xml and m2xml[member] in xa:
+        return xa[m2xml[member]]["use"] == "required", False
+    if member in m2tag and m2tag[member] in xe:
+        e = xe[m2tag[member]]
+        return e["lo"] >= 1, bool(e["choice"])
+    return None
+
+
+def own_minoccurs(ir, XT, cls, member):
+    """the element's OWN minOccurs >= 1 (what generateDS copies into MemberSpec_.optional), for choice alternatives"""
+    from emit_xsd import xsd_extract
+    c, x = ir.C[cls], XT.get(cls)
+    m2tag = {a["member"]: a["tag"] for a in c["expChildren"]}
+    for e in xsd_extract.effective_elems(x["content"]):
+        if e["tag"] == m2tag.get(member):
+            return e
+    return None
+
+
+LINE = re.compile(r"^\* (\S+) \(class: (\S+), (Optional|Required)\)$")
+PLINE = re.compile(r"^\t\* (\S+) \(class: (\S+), (Optional|Required)\)$")
+
+
+def canon_info(ret, sc, fmt):
+    """canonical form of one real info() answer"""
+    if fmt == "string":
+        if not isinstance(ret, str):
+            return {"bad": type(ret).__name__}
+        body = ret.split("Valid members for", 1)[-1]
+        rows = []
+        for l in body.split("\n"):
+            m = LINE.match(l)
+            if m:
+                rows.append([m.group(1), m.group(2), m.group(3) == "Optional"])
+        return {"lines": sorted(rows)}
+    if isinstance(ret, dict):
+        return {"dict": sorted([k, bool(v.get("required")), v.get("type")] for k, v in ret.items())}
+    if isinstance(ret, list):
+        return {"names": sorted(ret)}
+    return {"bad": type(ret).__name__}
+
+
+def canon_pinfo(ret, fmt):
+    if fmt == "string":
+        if not isinstance(ret, str):
+            return {"bad": type(ret).__name__}
+        body = ret.split("Valid parents for", 1)[-1]
+        d, cur = [], None
+        for l in body.split("\n"):
+            m = PLINE.match(l)
+            if m and cur is not None:
+                cur[1].append([m.group(1), m.group(3) == "Required", m.group(2)])
+            elif l.startswith("* "):
+                cur = [l[2:].strip(), []]
+                d.append(cur)
+        return {"lines": sorted([p, sorted(ms)] for p, ms in d)}
+    if isinstance(ret, dict):
+        return {"dict": sorted([p, sorted([n, bool(v.get("required")), v.get("type")] for n, v in ms.items())] for p, ms in ret.items())}
+    if isinstance(ret, list):
+        return {"parents": sorted(ret)}
+    return {"bad": type(ret).__name__}
+
+
+def idval(v):
+    """JSON form of an id value; (ok, json)"""
+    if v is None or isinstance(v, str):
+        return True, v
+    if isinstance(v, int) and not isinstance(v, bool):
+        return True, v
+    return False, None
+
+
+def holder_vals(ir, holder, cls, tags):
+    """value of every (own or inherited) member attribute of the holder, for the model"""
+    vals = []
+    for k in ir.chain(cls):
+        for s in k["specs"]:
+            n = s["name"]
+            v = getattr(holder, n, MISSING)
+            if v is MISSING or n not in ir.ix:
+                continue
+            e = {"n": ir.ix[n]}
+            if v is None:
+                e["k"] = "none"
+            elif isinstance(v, str):
+                e["k"], e["c"] = "chars", len(v)
+            elif isinstance(v, list):
+                row = []
+                for m in v:
+                    t = tags.setdefault(id(m), len(tags) + 1)
+                    has = hasattr(m, "id")
+                    ok, j = idval(m.id) if has else (True, None)
+                    if not ok:
+                        return None
+                    row.append({"h": has, "i": j, "t": t})
+                e["k"], e["l"] = "comps", row
+            else:
+                e["k"] = "scalar"
+            vals.append(e)
+    return vals
+
+
+class Real:
+    """runs one operation of a history on the real library and returns its canonical answer"""
+
+    def __init__(self, ir, mod):
+        self.ir, self.mod = ir, mod
+
+    def run(self, op):
+        mod = self.mod
+        k = op["k"]
+        try:
+            if k == "members":
+                return sorted([list(spec_tuple(sp)) for sp in getattr(mod, op["cls"])._get_members()])
+            if k == "info":
+                # on a populated object when one is given (the Contents lines must not disturb the member lines)
+                o = op["holder"] if op.get("holder") is not None else getattr(mod, op["cls"])()
+                sc = "all" if op.get("all") else op["sc"]
+                return canon_info(o.info(show_contents=sc, return_format=op["fmt"]), op["sc"], op["fmt"])
+            if k == "pinfo":
+                o = getattr(mod, op["cls"])()
+                return canon_pinfo(o.parentinfo(return_format=op["fmt"]), op["fmt"])
+            if k == "check":
+                o = getattr(mod, op["cls"])()
+                try:
+                    o._check_arg_list(**{kw: None for kw in op["kws"]})
+                    return True
+                except ValueError:
+                    return False
+            if k == "get":
+                h = op["holder"]
+                try:
+                    r = h.get_by_id(op["id"])
+                except TypeError:
+                    return {"r": "TypeError", "wc": h.warn_count}
+                except AttributeError:
+                    return {"r": "AttributeError", "wc": h.warn_count}
+                return {"r": None if r is None else op["tags"].get(id(r), -1), "wc": h.warn_count}
+        except Exception as e:
+            return {"raised": type(e).__name__ + ": " + str(e)[:120]}
+        return {"bad": k}
+
+
+def encode_op(ir, op):
+    """protocol form of an operation (names interned); None if a name is unknown to the tables"""
+    ix = ir.ix
+    k = op["k"]
+    if k == "members":
+        return {"k": k, "cls": ix[op["cls"]]}
+    if k == "info":
+        return {"k": k, "cls": ix[op["cls"]], "sc": bool(op["sc"]), "fmt": op["fmt"]}
+    if k == "pinfo":
+        return {"k": k, "cls": ix[op["cls"]], "fmt": op["fmt"]}
+    if k == "check":
+        if any(kw not in ix for kw in op["kws"]):
+            return None
+        return {"k": k, "cls": ix[op["cls"]], "kws": [ix[kw] for kw in op["kws"]]}
+    if k == "get":
+        return {"k": k, "doc": op["doc"], "cls": ix[op["cls"]], "vals": op["vals"], "wc": op["wc"], "id": op["id"]}
+
+
+def decode_ans(ir, op, a):
+    """model answer -> the canonical form canon_* produce"""
+    nm = ir.names
+    k = op["k"]
+    if a is None:
+        return {"model": "ill-formed"}
+    if k == "members":
+        return sorted([nm[n], nm[d], int(c), int(o)] for n, d, c, o in a)
+    if k == "info":
+        if "names" in a:
+            return {"names": sorted(nm[n] for n in a["names"])}
+        if "dict" in a:
+            return {"dict": sorted([nm[n], r, nm[t]] for n, r, t in a["dict"])}
+        return {"lines": sorted([nm[n], nm[t], o] for n, t, o in a["lines"])}
+    if k == "pinfo":
+        if "parents" in a:
+            return {"parents": sorted(nm[p] for p in a["parents"])}
+        key = "dict" if "dict" in a else "lines"
+        return {key: sorted([nm[p], sorted([nm[n], r, nm[t]] for n, r, t in ms)] for p, ms in a[key])}
+    return a
+
+
+def op_key(op):
+    return json.dumps({k: v for k, v in op.items() if k not in ("holder", "tags", "vals", "pre")}, sort_keys=True, default=str)
+
+
+# ---------------------------------------------------------------------------------------------- generators
+IDS = ["a", "b", "c", "a1", "pop", "x_1"]
+
+
+def mk_doc(mod, rng, odd):
+    holder = mod.NeuroMLDocument(id="d")
+    for _ in range(rng.randint(0, 6)):
+        k = rng.randrange(5)
+        cid = rng.choice(IDS)
+        if odd and rng.random() < 0.3:
+            cid = rng.choice([None, None, 3, 0, "3"])
+        if k == 0:
+            holder.izhikevich_cells.append(mod.IzhikevichCell(id=cid, v0="-70mV", thresh="30mV", a="0.02", b="0.2", c="-65", d="6"))
+        elif k == 1:
+            holder.pulse_generators.append(mod.PulseGenerator(id=cid, delay="0ms", duration="1ms", amplitude="1nA"))
+        elif k == 2:
+            holder.includes.append(mod.IncludeType(href=str(cid)))            # no id attribute at all
+        elif k == 3:
+            net = mod.Network(id=cid)
+            net.populations.append(mod.Population(id=rng.choice(IDS), component="x", size=1))   # nested: not a direct child
+            holder.networks.append(net)
+        else:
+            holder.cells.append(mod.Cell(id=cid))
+    if rng.random() < 0.35:
+        holder.annotation = mod.Annotation()          # an inherited scalar (non-iterable) member
+    if rng.random() < 0.3:
+        holder.notes = "some notes"
+    if rng.random() < 0.2:
+        holder.properties.append(mod.Property(tag="t", value="v"))
+    if rng.random() < 0.08:
+        holder.biophysical_properties = None          # a list member set to None: skipped by the scan
+    return holder, "NeuroMLDocument", True
+
+
+def mk_net(mod, rng, odd):
+    container = rng.random() < 0.25
+    if container:
+        from neuroml.hdf5.NetworkContainer import NetworkContainer, PopulationContainer
+        holder = NetworkContainer(id="n")
+    else:
+        holder = mod.Network(id="n", type=rng.choice([None, "network"]), temperature=rng.choice([None, "6.3 degC"]))
+    for _ in range(rng.randint(0, 5)):
+        cid = rng.choice(["a", "b", "c", "pop"])
+        if odd and rng.random() < 0.35:
+            cid = rng.choice([None, None, 3, 0, "3"])
+        r = rng.random()
+        if r < 0.45:
+            if container and rng.random() < 0.5:
+                holder.populations.append(PopulationContainer(id=cid, component="x", size=1))
+            else:
+                holder.populations.append(mod.Population(id=cid, component="x", size=1))
+        elif r < 0.8:
+            holder.projections.append(mod.Projection(id=cid, presynaptic_population="a", postsynaptic_population="b", synapse="s"))
+        else:
+            holder.input_lists.append(mod.InputList(id=cid, component="c", populations="a"))
+    if rng.random() < 0.3:
+        holder.annotation = mod.Annotation()
+    return holder, "Network", False
+
+
+def mk_get_op(ir, rng, holder, cls, is_doc, tags, qid):
+    vals = holder_vals(ir, holder, cls, tags)
+    if vals is None:
+        return None
+    return {"k": "get", "doc": is_doc, "cls": cls, "holder": holder, "tags": tags, "vals": vals, "wc": holder.warn_count, "id": qid}
+
+
+def visible_components(ir, holder, cls):
+    """direct children with an `id` attribute in the lists of the holder class's OWN table, as the SOURCE declares it"""
+    out = []
+    for s in ir.C[cls]["specs"]:
+        v = getattr(holder, s["name"], None)
+        if isinstance(v, list):
+            out += [m for m in v if hasattr(m, "id")]
+    return out
+
+
+def py_unsortable(ids):
+    if len(ids) < 2:
+        return False
+    return any(i is None for i in ids) or (any(isinstance(i, str) for i in ids) and any(isinstance(i, int) for i in ids))
+
+
+def judge_get(ctx, holder, op, real, source_visible):
+    """the property statement on one real get_by_id answer (string ids only)"""
+    qid = op["id"]
+    if not isinstance(qid, str):
+        return
+    case = {"get": {"doc": op["doc"], "cls": op["cls"], "id": qid, "wc": op["wc"], "after_calls": op.get("pre", []),
+                    "init": op.get("init"), "earlier_steps_on_this_object": op.get("steps"),
+                    "children": [[type(m).__name__, m.id if isinstance(m.id, (str, int, type(None))) else repr(m.id)] for m in source_visible],
+                    "annotation": getattr(holder, "annotation", None) is not None}}
+    carrying = [m for m in source_visible if m.id == qid]
+    r = real.get("r") if isinstance(real, dict) else "?"
+    if isinstance(real, dict) and "raised" in real:
+        r = real["raised"]
+    if op["doc"] and qid == "":
+        if r is not None:
+            ctx.fail("C11:get_by_id-empty", "document returned %r for the empty id" % (r,), case)
+        return
+    if carrying:
+        ok = isinstance(r, int) and r > 0 and any(op["tags"].get(id(m)) == r for m in carrying)
+        if not ok:
+            ctx.fail("C11:get_by_id-misses", "a component with id %r exists but get_by_id gave %r" % (qid, r), case)
+    else:
+        if r is None:
+            return
+        if r == "TypeError" and op["wc"] < 10 and py_unsortable([m.id for m in source_visible]):
+            ctx.fail("C11:get_by_id-raises:unsortable-ids",
+                     "no component carries %r; instead of None, TypeError from sorted(all_ids) (ids %r)" % (qid, [m.id for m in source_visible]), case)
+        elif isinstance(r, str):
+            ctx.fail("C11:get_by_id-raised", "no component carries %r; get_by_id raised %s instead of returning None" % (qid, r), case)
+        else:
+            ctx.fail("C11:get_by_id-invents", "no component with id %r but component #%r returned" % (qid, r), case)
+
+
+CORPUS = [
+    # known finding C11:get_by_id-raises:unsortable-ids — a population whose id is unset next to a named one
+    {"net": [["populations", None], ["populations", "a"]], "ids": ["zz"]},
+    # ... the same object: after ten misses the warning is off and None comes back (history dependence)
+    {"net": [["populations", None], ["populations", "a"]], "ids": ["a"], "pre_wc": 10, "then": ["zz"]},
+    # query / modify / query on one document (a memoising get_by_id would return the stale object)
+    {"doc": [["izhikevich_cells", "a"], ["pulse_generators", "p"]], "script": [["get", "a"], ["remove", "izhikevich_cells", 0], ["get", "a"],
+                                                                             ["get", "p"], ["replace", "pulse_generators", 0], ["get", "p"],
+                                                                             ["rename", "pulse_generators", 0, "q"], ["get", "p"], ["get", "q"]]},
+    # ids in two lists, id-less include first
+    {"doc": [["includes", "a"], ["izhikevich_cells", "a"], ["pulse_generators", "a"]], "ids": ["a", "zz", ""]},
+]
+
+
+# ---------------------------------------------------------------------------------------------- the run
 def run(ctx):
     ir = getattr(ctx, "ir", None) or bindgen.IR()
     import neuroml.nml.nml as mod
     names, ix = ir.names, ir.ix
-    lines, pending = [], []
     classes = [c["name"] for c in ir.table["classes"]]
     XT = {t["name"]: t for t in ir.X["ctypes"]} if ir.X else {}
+    real = Real(ir, mod)
+
+    # ---- 0. the tables as the module holds them vs the tables the translator read from the source
+    def check_tables(where, case):
+        snap = table_snapshot(mod, classes)
+        bad = []
+        for c in classes:
+            src = [(s["name"], s["type"], int(bool(s["container"])), int(bool(s["optional"]))) for s in ir.C[c]["specs"]]
+            if snap[c] is not None and snap[c] != src:
+                bad.append(c)
+        if bad:
+            c = bad[0]
+            src = [s["name"] for s in ir.C[c]["specs"]]
+            ctx.fail("C11:table-mutated", "%s: %s.member_data_items_ names %s, the source declares %s (%d classes affected)" % (
+                where, c, [t[0] for t in snap[c]][:12], src[:12], len(bad)), case)
+        return not bad
+
+    # the table OBJECTS as found at the start: a tree that extends them in place would otherwise make them grow with
+    # every cache reset (exponentially); after a detected mutation they are put back so that the run can go on
+    orig = {c: list(getattr(mod, c).__dict__["member_data_items_"]) for c in classes
+            if isinstance(getattr(mod, c).__dict__.get("member_data_items_"), list)}
+
+    def restore_tables():
+        for c, items in orig.items():
+            cur = getattr(mod, c).__dict__.get("member_data_items_")
+            if isinstance(cur, list) and (len(cur) != len(items) or any(a is not b for a, b in zip(cur, items))):
+                cur[:] = items
+
+    _check = check_tables
+
+    def check_tables(where, case):      # noqa: F811
+        ok = _check(where, case)
+        if not ok:
+            restore_tables()
+            reset_caches(mod)
+        return ok
+
+    reset_caches(mod)
+    check_tables("at start", {"history": []})
+
+    batches = []     # (kind, case, ops)  -> one driver line each
+
+    def add_history(kind, case, ops):
+        """run `ops` on the real library now; queue the same for the model"""
+        answers = [real.run(op) for op in ops]
+        enc = [encode_op(ir, op) for op in ops]
+        batches.append((kind, case, ops, answers, enc))
+        return answers
+
+    # ---- 1. class-level streams (exhaustive), each class as a history on a module with reset caches
+    FORMS = [(sc, fmt) for sc in (False, True) for fmt in ("string", "list", "dict")]
+    lines, pending = [], []
+    baseline = {}
     for cls in classes:
         K = getattr(mod, cls)
+        reset_caches(mod)
+        ops = [{"k": "info", "cls": cls, "sc": sc, "fmt": fmt} for sc, fmt in FORMS]
+        ops += [{"k": "pinfo", "cls": cls, "fmt": fmt} for fmt in ("dict", "list", "string")]
+        ops += [{"k": "members", "cls": cls}]
+        ans = add_history("class", {"cls": cls}, ops)
+        for op, a in zip(ops, ans):
+            baseline[op_key(op)] = a
+        check_tables("after info/parentinfo/_get_members of " + cls, {"history": [json.loads(op_key(o)) for o in ops]})
+        bad = [a for a in ans if isinstance(a, dict) and ("raised" in a or "bad" in a)]
+        if bad:
+            ctx.fail("C11:introspection-raised:" + cls, repr(bad[0]), {"cls": cls})
+            continue
         try:
             o = K()
             real_info = o.info(return_format="dict", show_contents=True)
@@ -65,13 +519,30 @@ def run(ctx):
         sig = [p for p in inspect.signature(K.__init__).parameters if p not in ("self", "gds_collector_", "kwargs_")]
         ctx.seen({"cls": cls}, nontrivial=len(real_info) >= 1)
         ctx.count("classes")
+        # ---- oracle: every format speaks about the same member set
+        sets = {}
+        for (sc, fmt), a in zip(FORMS, ans[:6]):
+            if "names" in a:
+                sets[(sc, fmt)] = sorted(a["names"])
+            elif "dict" in a:
+                sets[(sc, fmt)] = sorted(r[0] for r in a["dict"])
+            else:
+                sets[(sc, fmt)] = sorted(r[0] for r in a["lines"])
+        if len({tuple(v) for v in sets.values()}) != 1:
+            ctx.fail("C11:info-formats-disagree:" + cls, "member sets per (show_contents, return_format): %s" % {str(k): v for k, v in sets.items()}, {"cls": cls})
+        dict_rows = {r[0]: r for r in ans[5]["dict"]} if "dict" in ans[5] else {}
+        for n, t, opt in ans[3].get("lines", []):
+            if n in dict_rows and (dict_rows[n][1] != (not opt) or dict_rows[n][2] != t):
+                ctx.fail("C11:info-formats-disagree:" + cls, "member %s: string form says (%s, %s), dict form says %s" % (n, t, "Optional" if opt else "Required", dict_rows[n]), {"cls": cls})
+        pd, pl, ps = ans[6], ans[7], ans[8]
+        if sorted(p for p, _ in pd.get("dict", [])) != pl.get("parents") or pd.get("dict") != ps.get("lines"):
+            ctx.fail("C11:parentinfo-formats-disagree:" + cls, "dict %s / list %s / string %s" % (str(pd)[:150], str(pl)[:100], str(ps)[:150]), {"cls": cls})
         # ---- oracle (property statement on the real code)
         public = sorted(p for p in sig if p not in ("extensiontype_", "anytypeobjs_"))
         info_names = sorted(real_info)
         if info_names != public:
-            key = "C11:any-holder:" + cls if (cls in ANY_HOLDERS and set(info_names) ^ set(public) == {"__ANY__"}) else "C11:info-vs-constructor:" + cls
-            ctx.fail(key if not key.startswith("C11:any-holder") else "C11:any-holder",
-                     "info() members %s != constructor keywords %s" % (sorted(set(info_names) - set(public)), sorted(set(public) - set(info_names))),
+            key = "C11:any-holder" if (cls in ANY_HOLDERS and set(info_names) ^ set(public) == {"__ANY__"}) else "C11:info-vs-constructor:" + cls
+            ctx.fail(key, "info() members %s != constructor keywords %s" % (sorted(set(info_names) - set(public)), sorted(set(public) - set(info_names))),
                      {"cls": cls})
         for m in real_info:
             ok = True
@@ -81,14 +552,16 @@ def run(ctx):
                 ok = False
             if not ok:
                 ctx.fail("C11:checkarg-refuses-member:" + cls, "member %s reported by info() is refused by _check_arg_list" % m, {"cls": cls, "member": m})
-        # parentinfo inverse of info on the real code
         for parent, members in real_parent.items():
             P = getattr(mod, parent)
             pinfo = P().info(return_format="dict", show_contents=True)
             for mname, d in members.items():
                 if mname not in pinfo or pinfo[mname]["type"] != cls:
                     ctx.fail("C11:parentinfo-not-inverse:" + cls, "%s.%s reported as parent member but info() of %s disagrees" % (parent, mname, parent), {"cls": cls})
-        # ---- correspondence
+                elif bool(pinfo[mname]["required"]) != bool(d.get("required")):
+                    ctx.fail("C11:parentinfo-not-inverse:" + cls, "%s.%s: parentinfo() of %s says required=%s, info() of %s says required=%s" % (
+                        parent, mname, cls, d.get("required"), parent, pinfo[mname]["required"]), {"cls": cls})
+        # ---- correspondence with the pure table functions of the first pass
         lines.append(json.dumps({"op": "info", "cls": ix[cls]}))
         pending.append(("info", cls, sorted([m, d["type"], d["required"]] for m, d in real_info.items())))
         lines.append(json.dumps({"op": "parentinfo", "cls": ix[cls]}))
@@ -106,6 +579,22 @@ def run(ctx):
                 pending.append(("checkarg", (cls, kw), acc))
             elif acc:
                 ctx.fail("C11:checkarg-accepts-nonmember:" + cls, "keyword %s accepted" % kw, {"cls": cls, "kw": kw})
+    check_tables("after the class streams", {"history": ["info/parentinfo/_get_members of every class"]})
+
+    # parentinfo's class discovery = the binding classes (+ classes without tables)
+    discovered = set()
+    o = mod.Segment()
+    excluded = set(getattr(ctx, "intro", None) and ctx.intro.get("excluded") or [])
+    for ac in dir(mod):
+        if ac.startswith("_") or ac.endswith("_") or ac in excluded:
+            continue
+        cc = getattr(mod, ac, None)
+        if type(cc) is type and "member_data_items_" in cc.__dict__:
+            discovered.add(ac)
+    if discovered != set(classes):
+        ctx.fail("C11:parentinfo-class-discovery", "classes with a table that parentinfo's filter sees %s != binding classes (diff %s)" % (
+            len(discovered), sorted(discovered ^ set(classes))[:8]), {"cls": "Segment"})
+
     # inverse direction of parentinfo on the real code: every member typed C appears in C.parentinfo()
     allinfo = {}
     for cls in classes:
@@ -134,7 +623,8 @@ def run(ctx):
         xa = {a["name"]: a for a in x["attrs"]}
         xe = {e["tag"]: e for e in xsd_extract.effective_elems(x["content"])}
         K = getattr(mod, cls)
-        for sp in K.member_data_items_ if isinstance(K.member_data_items_, list) else K.member_data_items_.values():
+        # (the table objects as found at the start; a tree that mutates them is reported by C11:table-mutated)
+        for sp in orig.get(cls, []):
             n = sp.get_name()
             if n == "__ANY__":
                 continue
@@ -152,70 +642,311 @@ def run(ctx):
                     ctx.fail("C11:member-list-ness:%s.%s" % (cls, n), "single/list disagrees with maxOccurs", {"cls": cls, "member": n})
                 if bool(sp.get_optional()) != (e["lo"] == 0):
                     key = "C11:choice-member-required" if e["choice"] else "C11:member-required:%s.%s" % (cls, n)
-                    ctx.fail(key, "%s.%s: info() says %s, schema effective minOccurs %s%s" % (cls, n, "Optional" if sp.get_optional() else "Required", e["lo"], " (alternative of a required choice)" if e["choice"] else ""), {"cls": cls, "member": n})
+                    ctx.fail(key, "%s.%s: MemberSpec_ says %s, schema effective minOccurs %s%s" % (cls, n, "Optional" if sp.get_optional() else "Required", e["lo"], " (alternative of a required choice)" if e["choice"] else ""), {"cls": cls, "member": n})
             else:
                 ctx.fail("C11:member-unmapped:%s.%s" % (cls, n), "member has no schema counterpart", {"cls": cls, "member": n})
-    # get_by_id
-    n_q = ctx.n(300, 3000) * ctx.search_mult
+    # what info() itself REPORTS (dict 'required' key and the Required/Optional word of the string form) vs the schema,
+    # for every member of every class, inherited ones included (judged at the class that declares the member)
+    for cls in classes:
+        rows_dict = {r[0]: r for r in baseline.get(op_key({"k": "info", "cls": cls, "sc": True, "fmt": "dict"}), {}).get("dict", [])}
+        rows_str = {r[0]: r for r in baseline.get(op_key({"k": "info", "cls": cls, "sc": False, "fmt": "string"}), {}).get("lines", [])}
+        for k in ir.chain(cls):
+            for sp in k["specs"]:
+                n = sp["name"]
+                sr = schema_required(ir, XT, k["name"], n)
+                if sr is None or n == "__ANY__":
+                    continue
+                want, in_choice = sr
+                for form, got in (("dict", rows_dict[n][1] if n in rows_dict else None),
+                                  ("string", (not rows_str[n][2]) if n in rows_str else None)):
+                    if got is None or got == want:
+                        continue
+                    if in_choice and got and not want:
+                        key = "C11:choice-member-required"
+                    else:
+                        key = "C11:info-required-vs-schema:%s.%s" % (k["name"], n)
+                    ctx.fail(key, "%s().info() [%s form] reports %s.%s as %s; the schema says %s%s" % (
+                        cls, form, k["name"], n, "Required" if got else "Optional", "required" if want else "optional",
+                        " (alternative of a choice)" if in_choice else ""), {"cls": cls, "member": n, "declared_in": k["name"], "form": form})
+
+    # ---- 2. corpus + get_by_id stream (each holder gets a short history of queries)
+    def holder_from(spec):
+        if "net" in spec:
+            h = mod.Network(id="n")
+            for lst, cid in spec["net"]:
+                if lst == "populations":
+                    h.populations.append(mod.Population(id=cid, component="x", size=1))
+                else:
+                    h.projections.append(mod.Projection(id=cid, presynaptic_population="a", postsynaptic_population="b", synapse="s"))
+            return h, "Network", False
+        h = mod.NeuroMLDocument(id="d")
+        for lst, cid in spec["doc"]:
+            if lst == "includes":
+                h.includes.append(mod.IncludeType(href=cid))
+            elif lst == "izhikevich_cells":
+                h.izhikevich_cells.append(mod.IzhikevichCell(id=cid))
+            else:
+                h.pulse_generators.append(mod.PulseGenerator(id=cid, delay="0ms", duration="1ms", amplitude="1nA"))
+        return h, "NeuroMLDocument", True
+
+    def content_of(holder, cls):
+        out = []
+        for sp in ir.C[cls]["specs"]:
+            v = getattr(holder, sp["name"], None)
+            if isinstance(v, list):
+                out += [[sp["name"], type(m).__name__, m.id if isinstance(getattr(m, "id", None), (str, int, type(None))) else None]
+                        for m in v if hasattr(m, "id")]
+        return out
+
+    def modify(holder, cls, rng, last):
+        """change the holder between two lookups; returns the step for the replay, or None"""
+        lists = [(sp["name"], getattr(holder, sp["name"], None)) for sp in ir.C[cls]["specs"]]
+        lists = [(n, v) for n, v in lists if isinstance(v, list) and any(hasattr(m, "id") for m in v)]
+        if not lists:
+            return None
+        target = None
+        if last is not None and rng.random() < 0.8:
+            for n, v in lists:
+                for i, m in enumerate(v):
+                    if m is last:
+                        target = (n, v, i)
+        if target is None:
+            n, v = rng.choice(lists)
+            idx = [i for i, m in enumerate(v) if hasattr(m, "id")]
+            target = (n, v, rng.choice(idx))
+        n, v, i = target
+        r = rng.random()
+        if r < 0.35:
+            del v[i]
+            return ["remove", n, i]
+        if r < 0.65:
+            old_m = v[i]
+            v[i] = type(old_m)(id=old_m.id)           # an updated component under the same id
+            return ["replace", n, i]
+        if r < 0.9:
+            new_id = rng.choice(["renamed", "b", "zz"])
+            v[i].id = new_id
+            return ["rename", n, i, new_id]
+        v.append(type(v[i])(id=rng.choice(["zz", "nope", "a"])))
+        return ["add", n, i, v[-1].id]
+
+    def query_history(holder, cls, is_doc, qids, kind, prelude=(), modifying=False):
+        tags = {}
+        ops, answers = [], []
+        init = content_of(holder, cls)
+        steps = []
+        for op in prelude:
+            ops.append(op)
+            answers.append(real.run(op))
+        for qid in qids:
+            src_vis = visible_components(ir, holder, cls)        # the CURRENT content of the holder
+            op = mk_get_op(ir, ctx.rng, holder, cls, is_doc, tags, qid)
+            if op is None:
+                return
+            op["pre"] = [json.loads(op_key(o)) for o in prelude]
+            if steps:
+                op["init"], op["steps"] = init, list(steps)
+            a = real.run(op)
+            steps.append(["get", qid])
+            ops.append(op)
+            answers.append(a)
+            judge_get(ctx, holder, op, a, src_vis)
+            if modifying and ctx.rng.random() < 0.7:
+                hit = next((m for m in src_vis if isinstance(a, dict) and a.get("r") == tags.get(id(m))), None)
+                st = modify(holder, cls, ctx.rng, hit)
+                if st:
+                    steps.append(st)
+                    ctx.count("get:holder-modified-between-lookups")
+            ctx.count("get_by_id")
+            ctx.count("get:" + ("found" if isinstance(a, dict) and isinstance(a.get("r"), int) else "typeerror" if isinstance(a, dict) and a.get("r") == "TypeError" else "none" if isinstance(a, dict) and a.get("r") is None else "other"))
+        case = {"history": [dict(json.loads(op_key(o))) for o in ops]}
+        if prelude:
+            check_tables("after a get_by_id history", case)
+        enc = [encode_op(ir, op) for op in ops]
+        batches.append((kind, case, ops, answers, enc))
+        ctx.seen({"kind": kind, "h": [op_key(o) for o in ops], "children": init, "steps": steps}, nontrivial=len(init) >= 2)
+
+    def apply_step(holder, st):
+        v = getattr(holder, st[1])
+        if st[0] == "remove":
+            del v[st[2]]
+        elif st[0] == "replace":
+            v[st[2]] = type(v[st[2]])(id=v[st[2]].id)
+        elif st[0] == "rename":
+            v[st[2]].id = st[3]
+        elif st[0] == "add":
+            v.append(type(v[st[2]])(id=st[3]))
+
+    def scripted_history(holder, cls, is_doc, script, kind):
+        tags, ops, answers, steps = {}, [], [], []
+        init = content_of(holder, cls)
+        for st in script:
+            if st[0] != "get":
+                apply_step(holder, st)
+                steps.append(st)
+                continue
+            src_vis = visible_components(ir, holder, cls)
+            op = mk_get_op(ir, ctx.rng, holder, cls, is_doc, tags, st[1])
+            op["pre"] = []
+            if steps:
+                op["init"], op["steps"] = init, list(steps)
+            a = real.run(op)
+            steps.append(st)
+            ops.append(op)
+            answers.append(a)
+            judge_get(ctx, holder, op, a, src_vis)
+            ctx.count("get_by_id")
+        batches.append((kind, {"history": [json.loads(op_key(o)) for o in ops], "init": init, "steps": steps}, ops, answers,
+                        [encode_op(ir, o) for o in ops]))
+        ctx.seen({"kind": kind, "init": init, "steps": steps}, nontrivial=True)
+
+    for spec in CORPUS:
+        h, cls, is_doc = holder_from(spec)
+        if "pre_wc" in spec:
+            h.warn_count = spec["pre_wc"]
+        if "script" in spec:
+            scripted_history(h, cls, is_doc, spec["script"], "corpus")
+        else:
+            query_history(h, cls, is_doc, spec["ids"] + spec.get("then", []), "corpus")
+
+    # info() of an object whose single-valued child has an id (the quoted-id branch of the Contents line)
+    cell = mod.Cell(id="c", morphology=mod.Morphology(id="m"), notes="n")
+    iops = [{"k": "info", "cls": "Cell", "sc": True, "fmt": f, "holder": cell, "all": al} for f in ("string", "dict", "list") for al in (False, True)]
+    ians = [real.run(o) for o in iops]
+    batches.append(("corpus", {"history": [json.loads(op_key(o)) for o in iops]}, iops, ians, [encode_op(ir, o) for o in iops]))
+    for o, a in zip(iops, ians):
+        ref = baseline.get(op_key({"k": "info", "cls": "Cell", "sc": True, "fmt": o["fmt"]}))
+        if ref is not None and a != ref:
+            ctx.fail("C11:info-depends-on-contents:Cell", "info(%s) of a populated Cell reports %s, of an empty one %s" % (o["fmt"], str(a)[:150], str(ref)[:150]), {"cls": "Cell"})
+
+    n_q = ctx.n(260, 2600) * min(ctx.search_mult, 4)
     for q in range(n_q):
         rng = ctx.rng
-        is_doc = rng.random() < 0.6
-        if is_doc:
-            holder = mod.NeuroMLDocument(id="d")
-            for i in range(rng.randint(0, 6)):
-                l, comp = mk_component(mod, rng, i)
-                getattr(holder, l).append(comp)
+        odd = rng.random() < 0.3
+        holder, cls, is_doc = (mk_doc if rng.random() < 0.55 else mk_net)(mod, rng, odd)
+        ctx.count("holder:" + ("doc" if is_doc else type(holder).__name__) + (":odd-ids" if odd else ""))
+        r = rng.random()
+        pool = ["a", "b", "c", "a1", "pop", "zz", "", "x_1", "6", "3"]
+        if r < 0.6:
+            qids = [rng.choice(pool) for _ in range(rng.randint(1, 3))]
+        elif r < 0.8:
+            miss = rng.choice(["zz", "nope"])
+            qids = [miss] * rng.choice([2, 11, 12, 13]) + [rng.choice(pool)]      # across the warn_count threshold
+            ctx.count("get:repeated-misses")
         else:
-            holder = mod.Network(id="n", type=rng.choice([None, "network"]), temperature=rng.choice([None, "6.3 degC"]))
-            for i in range(rng.randint(0, 5)):
-                cid = rng.choice(["a", "b", "c", "pop"])
-                if rng.random() < 0.5:
-                    holder.populations.append(mod.Population(id=cid, component="x", size=1))
-                else:
-                    holder.projections.append(mod.Projection(id=cid, presynaptic_population="a", postsynaptic_population="b", synapse="s"))
-        qid = rng.choice(["a", "b", "c", "a1", "pop", "zz", "", "x_1", "6"])
-        if not is_doc and qid == "" and False:
-            continue
-        try:
-            r = holder.get_by_id(qid)
-        except Exception as e:
-            ctx.fail("C11:get_by_id-raised", repr(e), {"doc": is_doc, "id": qid})
-            continue
-        # lists in member_data_items_ order
-        items = type(holder).member_data_items_
-        items = items if isinstance(items, list) else list(items.values())
-        lists, tagof, t = [], {}, 1
-        comps_with_id = []
-        for sp in items:
-            v = getattr(holder, sp.get_name())
-            if v is None:
-                continue
-            row = []
-            if isinstance(v, str):
-                for ch in v:
-                    row.append({"h": False, "i": "", "t": 0})
+            qids = [rng.choice(pool + [None, 3, 0])] + [rng.choice(pool)]          # a non-string request, then a normal one
+            ctx.count("get:non-string-request")
+        prelude = []
+        if rng.random() < 0.5:
+            # introspection calls BEFORE the lookup (the table get_by_id walks must not have been touched by them)
+            reset_caches(mod)
+            prelude.append({"k": rng.choice(["info", "members"]), "cls": cls, "sc": rng.random() < 0.5, "fmt": rng.choice(["list", "dict", "string"])})
+            if prelude[0]["k"] == "members":
+                prelude[0] = {"k": "members", "cls": cls}
+            if rng.random() < 0.3:
+                prelude.append({"k": "pinfo", "cls": rng.choice(classes), "fmt": "list"})
+            ctx.count("get:after-introspection")
+        elif rng.random() < 0.5:
+            reset_caches(mod)
+        if rng.random() < 0.3:
+            # info() of the populated object itself, contents shown
+            prelude.append({"k": "info", "cls": cls, "sc": True, "fmt": rng.choice(["string", "string", "dict", "list"]),
+                            "holder": holder, "all": rng.random() < 0.5})
+            ctx.count("info:populated-object")
+        modifying = rng.random() < 0.35
+        if modifying:
+            # query, change the object, query again: ids that were found come back, with misses in between
+            present = [m.id for m in visible_components(ir, holder, cls) if isinstance(m.id, str) and m.id]
+            qids = []
+            for _ in range(rng.randint(2, 5)):
+                qids.append(rng.choice(present) if present and rng.random() < 0.75 else rng.choice(pool))
+            if present:
+                x = rng.choice(present)
+                qids = [x] + qids + [x]
+        query_history(holder, cls, is_doc, qids, "get", prelude, modifying)
+    check_tables("after the get_by_id stream", {"history": ["get_by_id stream"]})
+
+    # ---- 3. random call histories over all classes
+    n_h = ctx.n(60, 500) * min(ctx.search_mult, 4)
+    holders_cls = ["NeuroMLDocument", "Network"]
+    for hh in range(n_h):
+        rng = ctx.rng
+        reset_caches(mod)
+        pool_cls = [rng.choice(classes) for _ in range(2)] + [rng.choice(holders_cls)]
+        if rng.random() < 0.5:
+            # a class and one of its ancestors / descendants (the cache dict of one is visible from the other)
+            c0 = rng.choice(classes)
+            ch = [k["name"] for k in ir.chain(c0)]
+            pool_cls += [c0, rng.choice(ch)]
+        ops = []
+        for _ in range(rng.randint(3, 8)):
+            r = rng.random()
+            cls = rng.choice(pool_cls)
+            if r < 0.4:
+                ops.append({"k": "info", "cls": cls, "sc": rng.random() < 0.5, "fmt": rng.choice(["string", "list", "dict"])})
+            elif r < 0.55:
+                ops.append({"k": "pinfo", "cls": cls, "fmt": rng.choice(["string", "list", "dict"])})
+            elif r < 0.7:
+                mem = [s["name"] for k in ir.chain(cls) for s in k["specs"]]
+                kws = [rng.choice(mem)] if mem and rng.random() < 0.7 else []
+                if rng.random() < 0.4:
+                    kws.append(rng.choice(["id_", "name", "definitely_not_a_member"]))
+                ops.append({"k": "check", "cls": cls, "kws": kws})
+            elif r < 0.8:
+                ops.append({"k": "members", "cls": cls})
             else:
-                for m in v:
-                    tagof[id(m)] = t
-                    row.append({"h": hasattr(m, "id"), "i": str(m.id) if hasattr(m, "id") and m.id is not None else "", "t": t})
-                    if hasattr(m, "id"):
-                        comps_with_id.append(m)
-                    t += 1
-            lists.append(row)
-        ctx.seen({"doc": is_doc, "lists": lists, "id": qid}, nontrivial=(t > 2))
-        ctx.count("get_by_id")
-        exists = any(m.id == qid for m in comps_with_id)
-        if qid == "" and is_doc:
-            if r is not None:
-                ctx.fail("C11:get_by_id-empty", "document returned a component for the empty id", {"id": qid})
-        elif exists and (r is None or r.id != qid):
-            ctx.fail("C11:get_by_id-misses", "a component with id %r exists but %r was returned" % (qid, r), {"id": qid, "doc": is_doc})
-        elif not exists and r is not None:
-            ctx.fail("C11:get_by_id-invents", "no component with id %r but %r returned" % (qid, r), {"id": qid, "doc": is_doc})
-        lines.append(json.dumps({"op": "getbyid", "doc": is_doc, "lists": lists, "id": qid}))
-        pending.append(("getbyid", {"doc": is_doc, "id": qid, "lists": lists}, tagof.get(id(r)) if r is not None else None))
-    rc, out = fw.run_driver("C11", lines)
-    if rc != 0 or len(out) != len(lines):
+                ops.append("GET")
+        # at least one call is repeated later in the history
+        first = next((o for o in ops if o != "GET"), None)
+        if first is not None:
+            ops.insert(rng.randint(2, len(ops)), dict(first))
+        holder, hcls, is_doc = (mk_doc if rng.random() < 0.5 else mk_net)(mod, rng, False)
+        tags, real_ops, answers = {}, [], []
+        src_vis = visible_components(ir, holder, hcls)
+        for o in ops:
+            if o == "GET":
+                o = mk_get_op(ir, rng, holder, hcls, is_doc, tags, rng.choice(["a", "b", "zz", "pop", "nope"]))
+                if o is None:
+                    continue
+                o["pre"] = [json.loads(op_key(x)) for x in real_ops if x["k"] != "get"]
+            a = real.run(o)
+            real_ops.append(o)
+            answers.append(a)
+            if o["k"] == "get":
+                judge_get(ctx, holder, o, a, src_vis)
+            elif o["k"] == "check" and isinstance(a, bool):
+                # statement: the members info() reports are exactly the keywords that are accepted
+                reported = set(getattr(mod, o["cls"])().info(return_format="list"))
+                if a != all(kw in reported for kw in o["kws"]):
+                    ctx.fail("C11:checkarg-vs-info:" + o["cls"], "_check_arg_list(%s) %s although info() reports %s" % (
+                        o["kws"], "accepts" if a else "refuses", sorted(reported)[:12]), {"cls": o["cls"], "kws": o["kws"]})
+        case = {"history": [json.loads(op_key(o)) for o in real_ops]}
+        # oracle: identical calls answer identically, and as the same call answered on the freshly reset module
+        seen_ans = {}
+        for pos, (o, a) in enumerate(zip(real_ops, answers)):
+            if o["k"] == "get":
+                continue
+            k = op_key(o)
+            ref = seen_ans.setdefault(k, (pos, a))
+            if ref[1] != a:
+                ctx.fail("C11:history-dependent:" + o["k"], "call %d answers %s, the identical call %d answered %s" % (pos, str(a)[:160], ref[0], str(ref[1])[:160]), case)
+            if k in baseline and baseline[k] != a:
+                ctx.fail("C11:history-dependent:" + o["k"], "call %d (%s) answers %s; as the first call on a fresh module it answered %s" % (pos, k, str(a)[:160], str(baseline[k])[:160]), case)
+        check_tables("after a history", case)
+        enc = [encode_op(ir, o) for o in real_ops]
+        batches.append(("history", case, real_ops, answers, enc))
+        ctx.seen({"h": [op_key(o) for o in real_ops]}, nontrivial=True)
+        ctx.count("histories")
+        ctx.count("history-calls", len(real_ops))
+    reset_caches(mod)
+
+    # ---- 4. the model's side
+    hist_lines = []
+    for kind, case, ops, answers, enc in batches:
+        keep = [i for i, e in enumerate(enc) if e is not None]
+        hist_lines.append(json.dumps({"op": "hist", "ops": [enc[i] for i in keep]}))
+    rc, out = fw.run_driver("C11", lines + hist_lines)
+    if rc != 0 or len(out) != len(lines) + len(hist_lines):
         ctx.disagree("driver", "driver failed rc=%s" % rc, "\n".join(out[-3:])[:500], None)
         return
     for (kind, case, expect), l in zip(pending, out):
@@ -230,18 +961,198 @@ def run(ctx):
         else:
             got = r
         if got != expect:
-            ctx.disagree("introspect-" + kind, case, expect if kind in ("checkarg", "getbyid") else str(expect)[:400], got if kind in ("checkarg", "getbyid") else str(got)[:400])
+            ctx.disagree("introspect-" + kind, case, expect if kind in ("checkarg",) else str(expect)[:400], got if kind in ("checkarg",) else str(got)[:400])
+    for (kind, case, ops, answers, enc), l in zip(batches, out[len(lines):]):
+        r = json.loads(l)
+        keep = [i for i, e in enumerate(enc) if e is not None]
+        if "ans" not in r or len(r["ans"]) != len(keep):
+            ctx.disagree("history-" + kind, case, "driver answer malformed", str(r)[:300])
+            continue
+        if not r.get("tables_unchanged", False):
+            ctx.disagree("history-" + kind, case, "real tables compared separately", "the translated _get_members changes a member_data_items_ table")
+        for i, ma in zip(keep, r["ans"]):
+            ctx.corr_evals += 1
+            got = decode_ans(ir, ops[i], ma)
+            if got != answers[i]:
+                ctx.disagree("history-%s-%s" % (kind, ops[i]["k"]), {"history": case.get("history", case), "call": i},
+                             str(answers[i])[:400], str(got)[:400])
+                break
     ctx.sample({"cls": "Segment", "info": sorted(getattr(mod, "Segment")().info(return_format="dict", show_contents=True))})
+    if batches:
+        k, case, ops, answers, enc = batches[-1]
+        ctx.sample({"history": case.get("history"), "answers": [str(a)[:80] for a in answers]})
     ctx.extra["exhaustive"] = True
-    ctx.extra["exhaustive_note"] = "the class-level streams enumerate all 199 classes completely; get_by_id queries are sampled"
+    ctx.extra["exhaustive_note"] = ("the class-level streams enumerate all 199 classes completely (six info forms, three parentinfo forms); "
+                                    "call histories and get_by_id queries are sampled")
+    if getattr(ctx, "intro", None):
+        ctx.extra["translated"] = {k: ctx.intro.get(k) for k in ("gm", "check", "docGet", "netGet")}
+        ctx.extra["repair_present"] = bool(ctx.intro.get("docGet") and any("warn true" in t for t in ctx.intro["docGet"]))
 
 
+# ---------------------------------------------------------------------------------------------- replay
 def replay(ctx, payload):
+    import contextlib
+    import io
     import neuroml.nml.nml as mod
+    ir = bindgen.IR()
     case = payload["case"]
-    cls = case.get("cls")
-    if cls:
-        o = getattr(mod, cls)()
-        sig = [p for p in inspect.signature(type(o).__init__).parameters if p not in ("self", "gds_collector_", "kwargs_", "extensiontype_", "anytypeobjs_")]
-        return {"fails": sorted(o.info(return_format="dict", show_contents=True)) != sorted(sig), "info": sorted(o.info(return_format="dict", show_contents=True)), "ctor": sorted(sig)}
+    key = payload.get("key", "")
+    real = Real(ir, mod)
+    with contextlib.redirect_stdout(io.StringIO()):
+        if "get" in case and case["get"].get("init") is not None:
+            # a lookup on an object that was looked up / modified before: rebuild, redo the steps, compare the last
+            # answer with a FRESH object of the same final content
+            g = case["get"]
+            from neuroml.hdf5 import NetworkContainer as NC
+
+            def klass(t):
+                return getattr(mod, t, None) or getattr(NC, t)
+
+            def build(content):
+                h = (mod.NeuroMLDocument if g["doc"] else mod.Network)(id="h")
+                for lst, t, cid in content:
+                    getattr(h, lst).append(klass(t)(id=cid))
+                return h
+            h = build(g["init"])
+            h.warn_count = 0
+            ir2 = ir
+            trace = []
+            for st in g["earlier_steps_on_this_object"] + [["get", g["id"]]]:
+                if st[0] == "get":
+                    try:
+                        r = h.get_by_id(st[1])
+                        trace.append(["get", st[1], None if r is None else "%s(id=%r)#%x" % (type(r).__name__, r.id, id(r) & 0xffff)])
+                    except Exception as e:
+                        r = e
+                        trace.append(["get", st[1], "raised " + repr(e)])
+                else:
+                    v = getattr(h, st[1])
+                    if st[0] == "remove":
+                        del v[st[2]]
+                    elif st[0] == "replace":
+                        v[st[2]] = type(v[st[2]])(id=v[st[2]].id)
+                    elif st[0] == "rename":
+                        v[st[2]].id = st[3]
+                    elif st[0] == "add":
+                        v.append(type(v[st[2]])(id=st[3]))
+                    trace.append(st)
+            vis = visible_components(ir2, h, g["cls"])
+            carrying = [m for m in vis if m.id == g["id"]]
+            if isinstance(r, Exception):
+                fails = True
+            elif carrying:
+                fails = not any(r is m for m in carrying)
+            else:
+                fails = r is not None
+            return {"fails": fails, "steps_and_answers": trace, "content_now": [[type(m).__name__, m.id] for m in vis],
+                    "components_carrying_the_id_now": len(carrying)}
+        if "get" in case:
+            g = case["get"]
+            holder = (mod.NeuroMLDocument if g["doc"] else mod.Network)(id="h")
+            lists = {"IzhikevichCell": "izhikevich_cells", "PulseGenerator": "pulse_generators", "Network": "networks", "Cell": "cells",
+                     "Population": "populations", "PopulationContainer": "populations", "Projection": "projections", "InputList": "input_lists"}
+            for tname, cid in g["children"]:
+                K = getattr(mod, "Population" if tname == "PopulationContainer" else tname)
+                getattr(holder, lists[tname]).append(K(id=cid))
+            if g.get("annotation"):
+                holder.annotation = mod.Annotation()
+            holder.warn_count = g["wc"]
+            reset_caches(mod)
+            for o in g.get("after_calls", []):          # the introspection calls that preceded the lookup
+                if o.get("k") in ("info", "pinfo", "check", "members"):
+                    real.run(o)
+            try:
+                r = holder.get_by_id(g["id"])
+                got = None if r is None else "%s(id=%r)" % (type(r).__name__, r.id)
+                exists = any(c[1] == g["id"] for c in g["children"])
+                fails = (exists and (r is None or r.id != g["id"])) or (not exists and r is not None)
+            except Exception as e:
+                got, fails = "raised " + repr(e), True
+            return {"fails": fails, "get_by_id": got, "children": g["children"], "id": g["id"], "after_calls": g.get("after_calls", [])}
+        if "history" in case and key.startswith(("C11:history-dependent", "C11:table-mutated")):
+            classes = [c["name"] for c in ir.table["classes"]]
+            reset_caches(mod)
+            before = table_snapshot(mod, classes)
+            ans = []
+            for o in case["history"]:
+                if isinstance(o, dict) and o.get("k") in ("info", "pinfo", "check", "members"):
+                    ans.append((op_key(o), real.run(o)))
+            if not ans:
+                for c in ("NeuroMLDocument", "Network", "Cell"):
+                    getattr(mod, c)().info(return_format="list")
+            after = table_snapshot(mod, classes)
+            changed = [c for c in classes if before[c] != after[c]]
+            src_bad = [c for c in classes if after[c] is not None and [t[0] for t in after[c]] != [s["name"] for s in ir.C[c]["specs"]]]
+            dep = []
+            first = {}
+            for k, a in ans:
+                if k in first and first[k] != a:
+                    dep.append(k)
+                first.setdefault(k, a)
+            return {"fails": bool(changed or dep or src_bad), "tables_changed": changed[:5], "tables_differ_from_source": src_bad[:5], "calls_answering_differently": dep[:3]}
+        cls = case.get("cls")
+        if cls and key.startswith("C11:info-required-vs-schema") and "member" in case:
+            XT = {t["name"]: t for t in ir.X["ctypes"]}
+            o = getattr(mod, cls)()
+            want = schema_required(ir, XT, case["declared_in"], case["member"])
+            d = o.info(return_format="dict", show_contents=True)[case["member"]]["required"]
+            st = {r[0]: r for r in canon_info(o.info(return_format="string"), False, "string")["lines"]}[case["member"]]
+            return {"fails": want is not None and (bool(d) != want[0] or (not st[2]) != want[0]), "class": cls, "member": case["member"],
+                    "info_dict_required": d, "info_string_says": "Optional" if st[2] else "Required", "schema_required": want and want[0]}
+        if cls and key.startswith(("C11:member-type", "C11:member-list-ness", "C11:member-required", "C11:member-vs-schema")) and "member" in case:
+            from emit_xsd import xsd_extract
+            XT = {t["name"]: t for t in ir.X["ctypes"]}
+            sp = next((x for x in getattr(mod, cls).member_data_items_ if x.get_name() == case["member"]), None)
+            e = own_minoccurs(ir, XT, cls, case["member"])
+            a = next((a for a in XT[cls]["attrs"] if {x["member"]: x["xml"] for x in ir.C[cls]["expAttrs"]}.get(case["member"]) == a["name"]), None)
+            stypes = {t["name"] for t in ir.X["stypes"]}
+            if sp is None or (e is None and a is None):
+                return {"fails": True, "note": "member or schema item not found", "member": case["member"]}
+            if e is not None:
+                bad = ((sp.get_data_type() != e["type"] and not (e["type"] in stypes and sp.get_data_type() == "xs:string"))
+                       or bool(sp.get_container()) != (e["hi"] is None or e["hi"] > 1) or (bool(sp.get_optional()) != (e["lo"] == 0) and not e["choice"]))
+                return {"fails": bad, "MemberSpec_": list(spec_tuple(sp)), "schema_element": {k: e[k] for k in ("tag", "type", "lo", "hi", "choice")}}
+            bad = (a["type"] is not None and sp.get_data_type() != a["type"]) or bool(sp.get_optional()) != (a["use"] != "required") or bool(sp.get_container())
+            return {"fails": bad, "MemberSpec_": list(spec_tuple(sp)), "schema_attribute": {k: a[k] for k in ("name", "type", "use")}}
+        if cls and key.startswith("C11:parentinfo-class-discovery"):
+            excluded = set(introspect_extract.extract(fw.REPO, ir.table, ir.N)[0].get("excluded") or [])
+            classes = {c["name"] for c in ir.table["classes"]}
+            hidden = sorted(c for c in classes if c.startswith("_") or c.endswith("_") or c in excluded)
+            return {"fails": bool(hidden), "binding_classes_hidden_from_parentinfo": hidden}
+        if cls and "kws" in case:
+            o = getattr(mod, cls)()
+            reported = set(o.info(return_format="list"))
+            try:
+                o._check_arg_list(**{k: None for k in case["kws"]})
+                acc = True
+            except ValueError:
+                acc = False
+            return {"fails": acc != all(k in reported for k in case["kws"]), "accepted": acc, "kws": case["kws"], "info": sorted(reported)}
+        if cls:
+            o = getattr(mod, cls)()
+            sig = [p for p in inspect.signature(type(o).__init__).parameters if p not in ("self", "gds_collector_", "kwargs_", "extensiontype_", "anytypeobjs_")]
+            info = sorted(o.info(return_format="dict", show_contents=True))
+            forms = {}
+            for sc in (False, True):
+                for fmt in ("string", "list", "dict"):
+                    a = canon_info(o.info(show_contents=sc, return_format=fmt), sc, fmt)
+                    forms["%s/%s" % (sc, fmt)] = sorted(r if isinstance(r, str) else r[0] for r in (a.get("names") or a.get("dict") or a.get("lines") or []))
+            pd = canon_pinfo(o.parentinfo(return_format="dict"), "dict")
+            ps = canon_pinfo(o.parentinfo(return_format="string"), "string")
+            allinfo_inverse = sorted([p, m] for p in [c["name"] for c in ir.table["classes"]]
+                                     for m, d in getattr(mod, p)().info(return_format="dict", show_contents=True).items() if d["type"] == cls)
+            got_inverse = sorted([p, m[0]] for p, ms in pd.get("dict", []) for m in ms)
+            dd = {r[0]: r for r in canon_info(o.info(show_contents=True, return_format="dict"), True, "dict").get("dict", [])}
+            flags = [[n, "string:" + ("Optional" if opt else "Required"), "dict required=%s" % dd[n][1]]
+                     for n, t, opt in canon_info(o.info(return_format="string"), False, "string").get("lines", [])
+                     if n in dd and (dd[n][1] != (not opt) or dd[n][2] != t)]
+            req_diff = []
+            for p_, ms in pd.get("dict", []):
+                pi = getattr(mod, p_)().info(return_format="dict", show_contents=True)
+                req_diff += [[p_, m[0], "parentinfo required=%s" % m[1], "info required=%s" % pi[m[0]]["required"]]
+                             for m in ms if m[0] in pi and bool(pi[m[0]]["required"]) != bool(m[1])]
+            fails = (info != sorted(sig) or len({tuple(v) for v in forms.values()}) != 1 or pd.get("dict") != ps.get("lines")
+                     or allinfo_inverse != got_inverse or bool(flags) or bool(req_diff))
+            return {"fails": fails, "info": info, "ctor": sorted(sig), "member_sets_per_format": forms, "string_vs_dict_flags": flags[:5], "parentinfo_vs_info_required": req_diff[:5],
+                    "parentinfo": got_inverse[:8], "inverse_of_info": allinfo_inverse[:8]}
     return {"fails": False, "note": "not replayable"}
